@@ -1341,6 +1341,8 @@ impl Storage {
         start: u64,
         op: impl FnOnce(&mut StorageWrite) -> Result<T, ArchiveError>
     ) -> Result<T, ArchiveError> {
+        #[cfg(routinator_verif)]
+        crate::verif::kill_point("archive-before-write");
         let mut write = if self.size == start {
             StorageWrite::new_append(self)?
         }
@@ -1356,6 +1358,8 @@ impl Storage {
 
     /// Sets the storage to the given length.
     pub fn set_len(&mut self, len: u64) -> Result<(), ArchiveError> {
+        #[cfg(routinator_verif)]
+        crate::verif::kill_point("archive-before-set-len");
         self.file.lock().set_len(len)?;
         self.mmap()?;
         Ok(())
